@@ -16,8 +16,10 @@ EXPLANATION = (
     "register_model/deregister_model and the stored value is always a "
     "validated NaniteFitModel under the model's own key; (R2) every "
     "attribute NaniteFitModel reads from the wrapped module is required by "
-    "_module_check, auto-completed, or hasattr-guarded, and the check runs "
-    "first; (R3) load_model_from_file: definite assignment on every path "
+    "_module_check, auto-completed, or hasattr-guarded, the check runs "
+    "first, and each default wrapper is supplied under no other condition "
+    "than the absence of that very attribute (residual and model are "
+    "independently optional); (R3) load_model_from_file: definite assignment on every path "
     "(incl. exceptional paths through `finally`), no return/raise inside "
     "`finally` that would swallow ModelImportError, sys.path insert/remove "
     "and dont_write_bytecode set/unset paired on all exits; (R4) ancillary "
